@@ -260,7 +260,7 @@ func (w *printer) item(it Item) {
 		if x.CRLF {
 			sep = "\r\n"
 		}
-		w.mark(x.ID, "tick", w.tok("`"+strings.Join(x.Lines, sep)+"`"))
+		w.mark(x.ID, "tick", w.tok("`"+strings.Join(x.Lines, sep)+x.Pad+"`"))
 		w.nl()
 		w.end(x.ID, s)
 	}
